@@ -321,10 +321,13 @@ impl SwiftField for Field53SenderCorrespondent {
                 let field = Field53D::parse(value)?;
                 Ok(Field53SenderCorrespondent::D(field))
             }
-            _ => {
-                // No variant specified, fall back to default parse behavior
+            None | Some("") => {
+                // No option letter given: fall back to default parse behavior
                 Self::parse(value)
             }
+            Some(other) => Err(ParseError::InvalidFormat {
+                message: format!("Option {} is not allowed for this field", other),
+            }),
         }
     }
 
